@@ -87,7 +87,7 @@ func cmdCheck(args []string) {
 	if s := os.Getenv("VERIF_SEED"); s != "" {
 		fmt.Sscan(s, &seed)
 	}
-	timeout := 10
+	timeout := 20
 	if tier == "thorough" {
 		timeout = 60
 	}
